@@ -461,10 +461,48 @@ class Store:
                 "".join(eq_char(a, ra, b, rb) for a, ra in zip(self.v, rs) for b, rb in zip(self.v, rs)))
 
 
+SELFAPP_EXPECTED = {"l": "1 0 0 0 0", "a": "1 0 0 0 0", "m": "1 0 0 0 0", "n": "1 1 1 0 0", "e": "1 1 0 0 0"}
+SELFAPP_WHAT = {"l": "Variant v; v.toList(); v.toList().append(v);", "a": "Variant v; v.toArray(); v.toArray().append(v);",
+                "m": "Variant v; v.toMap(); v.toMap().append(\"k\", v);",
+                "n": "Variant v; v.toList().append(Variant(List<Variant>())); v.toList().back().toList().append(v);",
+                "e": "Variant v; v.toList().append(Variant(1)); v.toList().back() = v;"}
+
+
+def selfapp_value(k):
+    """sizes along v, v.back(), v.back().back(), ... under value semantics, computed on the store of values"""
+    if k == "l" or k == "a" or k == "m":
+        v = ('L', [])
+        v = ('L', [copy.deepcopy(v)])
+    elif k == "n":
+        v = ('L', [('L', [])])
+        old = copy.deepcopy(v)
+        v[1][0][1].append(old)
+    elif k == "e":
+        v = ('L', [('i', 1)])
+        old = copy.deepcopy(v)
+        v[1][0] = old
+    else:
+        return None
+    out, x = [], v
+    for _ in range(5):
+        if x is not None and x[0] in 'LAM' and x[1]:
+            out.append(len(x[1]))
+            x = x[1][-1]
+        else:
+            out.append(len(x[1]) if x is not None and x[0] in 'LAM' else 0)
+            x = None
+    return " ".join(map(str, out))
+
+
 def reference(hist):
     st = Store()
     out = []
     for line in hist:
+        if line.startswith("selfapp"):
+            t = line.split()
+            val = selfapp_value(t[1]) if len(t) == 2 else None
+            out.append("bad-op" if val is None else f"selfapp {t[1]} {val}")
+            continue
         out.append(st.obs() if st.apply(line) else "bad-op")
     return out
 
@@ -656,6 +694,29 @@ ASSUMPTIONS = [
 ]
 
 
+def probe_self_append(ctx, harness):
+    """finding `self-append` (outside the model's precondition): run the dedicated probes on the real code and
+    compare with value semantics; reported through ctx.violation with a signature so that known_findings.json decides"""
+    kinds = sorted(SELFAPP_EXPECTED)
+    lines = [f"selfapp {k}" for k in kinds]
+    out, rc, err = C.run_lines(harness, ["reset"] + lines, timeout=60)
+    ctx.cov["evaluations"] += len(out)
+    got = out[1:]
+    failing = []
+    for k, line in zip(kinds, lines):
+        exp = f"selfapp {k} {selfapp_value(k)}"
+        assert selfapp_value(k) == SELFAPP_EXPECTED[k]
+        g = got[kinds.index(k)] if kinds.index(k) < len(got) else f"<no output: crash/timeout rc={rc}> {err[-300:]}"
+        if g != exp:
+            failing.append((k, line, g, exp))
+    ctx.cov["self_append_probes"] = {"run": len(kinds), "failing": len(failing)}
+    if failing:
+        txt = "".join(f"{line}\n# {SELFAPP_WHAT[k]}\n# impl    : {g}\n# expected: {exp}   (container sizes along v, v.back(), v.back().back(), ...)\n"
+                      for k, line, g, exp in failing)
+        ctx.violation("a Variant reached through a mutable accessor of v is given v itself: v then contains itself "
+                      "(value semantics: it contains a copy of its old value)", txt, signature="self-append")
+
+
 def check(ctx):
     ctx.assumptions += ASSUMPTIONS
     proof_ok = C.proof_stage(ctx, PROPS, [DRIVER], leanchecker=(ctx.tier == "thorough"))
@@ -678,6 +739,7 @@ def check(ctx):
         diffs = C.differential(ctx, harness, C.driver_path(DRIVER), hs, reference, line_eq, nontrivial=nontrivial)
         ctx.log(f"{len(hs)} histories, {ctx.cov['evaluations']} op lines, {len(diffs)} disagreement(s)")
         C.report_diffs(ctx, diffs, harness, C.driver_path(DRIVER), reference, line_eq, "variant-ops")
+        probe_self_append(ctx, harness)
     finally:
         try:
             harness.unlink()
